@@ -17,7 +17,7 @@ var keyUniverse = []string{
 	prefix + "/pods/ns/p1", prefix + "/pods/events/p1", prefix + "/events/ns/e1", prefix + "/b",
 }
 
-var allSites = []string{"seq.commit", "seq.cache", "seq.bcast", "seq.sent", "watch.enter", "watch.subscribed", "watch.cacheread", "hub.recv",
+var allSites = []string{"seq.commit", "seq.committed", "seq.cache", "seq.bcast", "seq.sent", "watch.enter", "watch.subscribed", "watch.cacheread", "hub.recv",
 	"kv.get", "kv.get.ret", "kv.commit", "kv.commit.ret", "kv.parts", "kv.del", "kv.del.ret", "kv.delcur", "kv.delcur.ret"}
 
 // swarmSites deactivates a random subset of optional yield sites.
